@@ -3047,6 +3047,16 @@ pub(crate) const PLT_ENTRY_SIZE: u64 = 0x10;
 pub(crate) const RELA_ENTRY_SIZE: u64 = size_of::<Rela>() as u64;
 pub(crate) const RELR_ENTRY_SIZE: u64 = size_of::<Relr>() as u64;
 
+/// Returns whether a relative relocation at `offset_in_section` within an input section with the
+/// supplied alignment can be represented in `.relr.dyn`. RELR can only represent even addresses.
+/// The address of the section isn't known when we allocate space, so we need a criterion that
+/// depends only on the input: if the section's alignment is at least 2, then the parity of the
+/// address is the parity of the offset. Otherwise we can't know, so we fall back to RELA. Layout
+/// (allocation) and writing must both use this function so that they always agree.
+pub(crate) fn relr_eligible(section_alignment: u64, offset_in_section: u64) -> bool {
+    section_alignment >= 2 && offset_in_section.is_multiple_of(2)
+}
+
 pub(crate) const SYMTAB_ENTRY_SIZE: u64 = size_of::<SymtabEntry>() as u64;
 pub(crate) const SYMTAB_SHNDX_ENTRY_SIZE: u64 = size_of::<SymtabShndxEntry>() as u64;
 pub(crate) const GNU_VERSION_ENTRY_SIZE: u64 = size_of::<Versym>() as u64;
@@ -4866,7 +4876,9 @@ fn process_relocation<'data, 'scope, A: Arch<Platform = Elf>, R: Relocation>(
         {
             if section_is_writable {
                 // Odd offsets mean bitmaps in RELR, so we need to fall back to RELA for them.
-                if resources.symbol_db.args.is_relr_enabled() && rel.offset().is_multiple_of(2) {
+                if resources.symbol_db.args.is_relr_enabled()
+                    && elf::relr_eligible(section.sh_addralign(LittleEndian), rel.offset())
+                {
                     common.allocate(part_id::RELR_DYN, elf::RELR_ENTRY_SIZE);
                 } else {
                     common.allocate(part_id::RELA_DYN_RELATIVE, elf::RELA_ENTRY_SIZE);
